@@ -403,3 +403,20 @@ PROPS["C06"]["rule"] += (" Second runner C06S (M-seq): sequential histories of t
 PROPS["C18"]["modules"] = PROPS["C18"]["modules"] + ["SyncCheck"]
 PROPS["C18"]["runners"] = PROPS["C18"].get("runners", [{"name": "C18", "synctest": True}]) + [{"name": "SYNC10", "synctest": True}]
 PROPS["C18"]["rule"] += (" Runner SYNC10 (gated scenarios and concurrent runs, as for C10): among them a persisted publish that is inside Persistence.Save while the redial receives its CONNACK - requests issued during a connect attempt must come back, and the connect must complete.")
+
+# checker clauses added in the mutation rounds 8-12 (stated here so that the evidence says what is judged)
+_ADDED = {
+ "C01": "c01_ok also demands that every connection carries whole packets ('written to the broker in full').",
+ "C03": "c03_ok also demands pubrel_recorded: no PUBREL on the wire unless the PUBREL is recorded.",
+ "C04": "c04_full = c04_ok + own_step (the ReadSlices call after an exactly-once message leaves its marker in the Persistence, whatever it returns, unless the marker Save failed in it or the PUBREL ended the cycle) + pubrec_after_marker (a PUBREC goes out only while the marker is stored) + no_false_reset (a well-formed stream is not answered with a protocol reset).",
+ "C05": "c05_full = c05_ok + silent adoption of an untampered Persistence (an adoption that drops records switches the resend rule off) + applied limits within the identifier space.",
+ "C07": "BigMessage returns are identified also when their payload never arrived completely (partial_publish); acked_before_next and settled_acks cover them.",
+ "C10": "rd_step also demands 'noticed' (a ReadSlices error other than a Persistence error leaves the client offline); c10_ok includes no_false_reset.",
+ "C12": "c12_gen also demands conns_closed_at_end: when ReadSlices reports ErrClosed every connection this client instance dialed has been closed.",
+ "C13": "c13_full = c13_ok + rq_step (a request completes successfully only through a well-formed response of its own) + no_forged_delivery (everything returned is among the inbound PUBLISH packets).",
+ "C14": "c14_ret also judges ReadBackoff (nil exactly for ErrClosed).",
+ "C15": "C15S also runs the restart scenarios and demands seq_step: every saved record is numbered above every decodable record present.",
+ "C18": "c18_ok also demands up_step (ErrDown only after a failed attempt) and lp_step (after a ReadSlices whose Load or dial failed nobody still waits for the write token).",
+}
+for _p, _t in _ADDED.items():
+    PROPS[_p]["rule"] += " " + _t
